@@ -88,6 +88,7 @@ def parseOp (ws : List String) : Option Op :=
   | ["shr"] => some .nop
   | ["rd"] => some .rd
   | ["wr"] => some .wr
+  | ["rw"] => some .rw
   | _ => none
 
 /-- user callbacks only: a discard / a dropped send are log lines in the code, visible through `rq` / `wire` -/
@@ -134,8 +135,17 @@ def branchTags (s : S) (op : Op) (s' : S) : List String :=
            else if s'.sendQ = [] then ["wr-drained"]
            else if s'.sendQ.length < s.sendQ.length then ["wr-partial"] else ["wr-stalled"])
         else ["wr-idle"]
+    | .rw =>
+        let r := s.readOn ∧ (s.pending ≠ [] ∨ s.eof)
+        (if r ∧ s.writeArmed then ["rw-both"] else if r then ["rw-read"] else if s.writeArmed then ["rw-write"] else ["rw-idle"]) ++
+        (if r ∧ s.writeArmed ∧ ¬ s'.writeArmed ∧ s'.st ≠ .running then ["rw-write-skipped"] else []) ++
+        (if ¬ s.writeArmed ∧ s'.writeArmed then ["rw-armed-in-dispatch"] else [])
     | .disconnect => ["disconnect"]
     | _ => []
+  let isPass : Bool := match op with | .rd | .rw => true | _ => false
+  let closing : Bool := isPass && s.readOn && s.pending.isEmpty && s.eof && !s.recvQ.isEmpty &&
+    (match s.rq with | .eagain :: _ => false | .err :: _ => false | _ => true)
+  let t1 := t1 ++ (if closing then ["flush-at-close"] else [])
   let t2 := evs.filterMap fun e => match e with
     | .recv p k => some (if k = 0 then "consume-none" else if k < p.length then "consume-some" else "consume-all")
     | .discard _ => some "discard"
@@ -144,11 +154,37 @@ def branchTags (s : S) (op : Op) (s' : S) : List String :=
     | _ => none
   t1 ++ t2 ++ (if s.conn then ["conn"] else [])
 
+/-- the end-to-end run is judged against its specification directly: both streams arrive whole, each
+side is told about the close once unless it closed actively, dead handles refuse to send -/
+def e2eLine (ws : List String) : Option (List String) :=
+  match ws with
+  | [_, mode, n1, c1, n2, c2, thr, closer, sb] => do
+      let n1 ← n1.toNat?; let c1 ← c1.toNat?; let n2 ← n2.toNat?; let c2 ← c2.toNat?
+      let thr ← thr.toNat?; let sb ← sb.toNat?
+      if mode ≠ "sc" ∧ mode ≠ "ac" then none
+      if closer ≠ "c" ∧ closer ≠ "s" ∧ closer ≠ "h" then none
+      if c1 = 0 ∨ c2 = 0 ∨ n1 > 16777216 ∨ n2 > 16777216 ∨ (mode = "sc" ∧ sb ≠ 0) ∨ (closer = "s" ∧ thr > 1) then none
+      if n1 = 0 ∨ n2 = 0 then none
+      let late :=
+        if mode = "sc" then
+          (if closer = "s" then "sd=10 ssend=0 valid=0 csend2=0"
+           else if closer = "c" then "csend=0 svalid=1" else "shut=1 svalid=1 csend2=0")
+        else
+          (if closer = "s" then "sd=10 ssend=0 sexp=1 cexp=1 csend2=0"
+           else if closer = "c" then "cd=10 csend=0 sexp=1 ssend2=0" else "shut=1 sexp=1 ssend2=0 cexp=1 csend2=0")
+      pure ["B e2e e2e-" ++ mode ++ "-" ++ closer ++ (if thr > 1 then " e2e-threshold" else "") ++ (if sb > 0 then " e2e-sndbuf" else ""),
+            "P e2e c2s=" ++ digest (genBytes 11 n1) ++ " s2c=" ++ digest (genBytes 23 n2) ++
+              " sdisc=" ++ (if closer = "s" then "0" else "1") ++ " cdisc=" ++ (if closer = "c" then "0" else "1") ++
+              " late=" ++ late,
+            "M e2e spres=1 cpres=1"]
+  | _ => none
+
 def stepLine (s : S) (line : String) : S × List String :=
   let ws := words line
   match ws with
   | [] => (s, [])
   | "case" :: _ => (init, [line.trimAscii.toString])
+  | "e2e" :: _ => (s, (e2eLine ws).getD ["bad-op"])
   | _ =>
     match parseOp ws with
     | none => (s, ["bad-op"])
